@@ -487,6 +487,38 @@ func child(casesPath, outPath, slotPath, disabledJSON string) {
 	}
 	info["block_sequences"] = seqOutcomes
 	mark("sequences", t)
+	// ---- 9. the cases of spec/RpcFuzz.tla on the router, the HTTP handler and the websocket server
+	t = time.Now()
+	rpcRun, rpcOut := 0, map[string]int{}
+	if path := os.Getenv("C09_RPC_CASES"); path != "" && on("rpc") {
+		rf, err := os.Open(path)
+		if err != nil {
+			die(3, "rpc cases: %v", err)
+		}
+		rs := bufio.NewScanner(rf)
+		rs.Buffer(make([]byte, 1<<20), 1<<26)
+		for rs.Scan() {
+			c := &rpcCase{}
+			if json.Unmarshal(rs.Bytes(), c) != nil {
+				continue
+			}
+			name, in := w.rpc.rpcInputs(c)
+			if name == "" || byName[name] == nil {
+				continue
+			}
+			res := r.Call(byName[name], in, "rpc:"+c.T, false)
+			rpcRun++
+			rpcOut[name+":"+res]++
+		}
+		rf.Close()
+	}
+	if e := byName["rpc.ws.connect-burst"]; e != nil && on("rpc") && rpcRun > 0 {
+		for i := 0; i < 12; i++ {
+			rpcOut["rpc.ws.connect-burst:"+r.Call(e, []byte{byte(15 - i%4)}, "rpc:burst", false)]++
+		}
+	}
+	info["rpc_cases_run"], info["rpc_outcomes"] = rpcRun, rpcOut
+	mark("rpc", t)
 
 	rep := r.report()
 	rep.Errors = errs
